@@ -1,4 +1,5 @@
 import Rare.Proofs.C11Str
+import Rare.Proofs.C11Float
 import Rare.Gen.C11
 /-!
 # C11 — scalar helper functions follow their documented semantics
@@ -12,9 +13,13 @@ static-evaluation path and the run-time path.  Value-level theorems (`bucket_flo
 `hi_only_separators` …) are about the pure functions those stages call; the `*_call` theorems tie
 the two levels together.
 
-Float-valued helpers are outside these theorems (see DESIGN.md, C11 "Level"): only the
-`<BAD-TYPE>` marker and exactly-representable decimal comparisons are modelled, and they are
-checked by correspondence only.
+Float-valued helpers (`sumf … divf`, `floor ceil round sqrt`, `lt … gte`, `isnum`, `hf`, `percent`,
+`bytesize…`) are modelled on the software binary64 model `Rare/Base/F64.lean` (a float is its bit
+pattern; every operation is the correctly rounded exact rational result; no `Float` anywhere) with
+the modelled `strconv.ParseFloat` / `FormatFloat` of `Rare/Base/F64Str.lean`.  The last two sections
+state the IEEE facts (`f64_*`: round trip, exact integers, monotone rounding, exact operations,
+order = order of values, floor/ceil/trunc/round) and what the helpers compute from them.  `pow` and
+`log10/log2/ln` (Go's `math.Pow`, `math.Log*`) stay outside the model.
 -/
 namespace Rare.C11
 open Rare Rare.Expr Rare.Expr.Funcs
@@ -332,5 +337,348 @@ theorem gen_tables :
   decide +kernel
 
 example : Gen.C11.bucket (-100) 50 = -100 ∧ Gen.C11.bucketRange (-100) 50 = (-100, -51) := by decide
+
+/-! ## binary64: the software model under the float helpers (`Rare/Base/F64.lean`)
+
+A float is its 64-bit pattern; `toRat` is the exact value of a finite pattern; `ofRat q` is the
+float nearest to `q` (ties to even, overflow to ±Inf, gradual underflow); `add/sub/mul/div` of
+finite operands are `ofRat` of the exact rational result (`F64.add_finite` …).  The model is compared
+bit for bit with Go's float64 and with Lean's native `Float` on every run (`f64 …` ops). -/
+
+/-- **Round trip.** Rounding the exact value of a finite float returns the float (an exact zero is
+    given the float's own sign); with the default `+0` this is `ofRat (toRat x) = x` for every finite
+    `x` except `-0`, and `-0 ↦ +0`. -/
+theorem f64_ofRat_toRat (x : F64) (hf : x.isFinite = true) :
+    F64.ofRatS x.sign x.toRat = x ∧
+    (¬(x.sign = true ∧ x.mag = 0) → F64.ofRat x.toRat = x) ∧
+    F64.ofRat (F64.zero true).toRat = F64.zero false :=
+  ⟨F64.ofRatS_toRat x hf, F64.ofRat_toRat x hf, F64.ofRat_toRat_negZero⟩
+
+example : (F64.ofInt 3).isFinite = true ∧ ¬((F64.ofInt 3).sign = true ∧ (F64.ofInt 3).mag = 0) := by decide +kernel
+
+/-- **Integers up to `2^53` are floats**, and so is every `±m·2^e/2^1074` with `m < 2^53` below the
+    overflow threshold (`e` counts from the smallest subnormal exponent, so subnormals are included). -/
+theorem f64_ofRat_exact_int (n : Int) (h : n.natAbs ≤ 9007199254740992) :
+    (F64.ofRat (n : Rat)).toRat? = some (n : Rat) :=
+  F64.ofRat_exact_int h
+
+theorem f64_ofRat_exact_dyadic (neg : Bool) (m e : Nat) (hm : m < 9007199254740992) (hr : m * 2 ^ e < 2 ^ 2098) :
+    let q : Rat := (if neg then -1 else 1) * (((m * 2 ^ e : Nat) : Rat) / F64.two1074)
+    (F64.ofRat q).toRat? = some q :=
+  F64.ofRat_exact_dyadic neg m e hm hr
+
+example : (F64.ofRat ((9007199254740992 : Int) : Rat)).toRat? = some ((9007199254740992 : Int) : Rat) :=
+  f64_ofRat_exact_int _ (by decide)
+
+/-- `2^53 + 1` is *not* a float: it rounds (ties to even) to `2^53`. -/
+example : F64.ofInt 9007199254740993 = F64.ofInt 9007199254740992 := by decide +kernel
+
+/-- **Rounding is monotone**: `q₁ ≤ q₂ → ofRat q₁ ≤ ofRat q₂` in the IEEE order, for all rationals
+    (overflow to ±Inf and underflow to ±0 included; any signs of zero). -/
+theorem f64_ofRat_mono (q₁ q₂ : Rat) (h : q₁ ≤ q₂) :
+    F64.le (F64.ofRat q₁) (F64.ofRat q₂) = true ∧
+    ∀ s₁ s₂, F64.le (F64.ofRatS s₁ q₁) (F64.ofRatS s₂ q₂) = true :=
+  ⟨F64.ofRat_mono h, fun s₁ s₂ => F64.ofRatS_le_ofRatS s₁ s₂ h⟩
+
+/-- The result of rounding is never NaN, and the nearest-integer function behind it errs by at most
+    one half (ties to even). -/
+theorem f64_round_basic (s : Bool) (q x : Rat) :
+    (F64.ofRatS s q).isNaN = false ∧
+    x - 1/2 ≤ (F64.roundNE x : Rat) ∧ (F64.roundNE x : Rat) ≤ x + 1/2 :=
+  ⟨F64.isNaN_ofRatS s q, F64.roundNE_err x⟩
+
+/-- **The float order is the order of the exact values** (finite operands; `-0 = +0`). -/
+theorem f64_order_is_value_order (x y : F64) (hx : x.isFinite = true) (hy : y.isFinite = true) :
+    (F64.le x y = true ↔ x.toRat ≤ y.toRat) ∧ (F64.lt x y = true ↔ x.toRat < y.toRat) :=
+  ⟨F64.le_iff_toRat_le hx hy, F64.lt_iff_toRat_lt hx hy⟩
+
+/-- **Exact operations.** Integer-valued operands whose exact sum / difference / product has
+    magnitude at most `2^53`: `add` / `sub` / `mul` return exactly that integer. -/
+theorem f64_exact_ops_int (x y : F64) (a b : Int)
+    (hx : x.toRat? = some (a : Rat)) (hy : y.toRat? = some (b : Rat)) :
+    ((a + b).natAbs ≤ 9007199254740992 → (F64.add x y).toRat? = some ((a + b : Int) : Rat)) ∧
+    ((a - b).natAbs ≤ 9007199254740992 → (F64.sub x y).toRat? = some ((a - b : Int) : Rat)) ∧
+    ((a * b).natAbs ≤ 9007199254740992 → (F64.mul x y).toRat? = some ((a * b : Int) : Rat)) :=
+  ⟨F64.add_exact_int hx hy, F64.sub_exact_int hx hy, F64.mul_exact_int hx hy⟩
+
+example : (F64.ofInt 4503599627370496).toRat? = some ((4503599627370496 : Int) : Rat) ∧
+    (F64.ofInt (-3)).toRat? = some ((-3 : Int) : Rat) :=
+  ⟨f64_ofRat_exact_int _ (by decide), f64_ofRat_exact_int _ (by decide)⟩
+
+/-- More generally, whenever the exact result of `+ − ×` on finite floats is itself a float, it is returned. -/
+theorem f64_exact_ops (x y : F64) (hx : x.isFinite = true) (hy : y.isFinite = true) :
+    (F64.Rep (x.toRat + y.toRat) → (F64.add x y).toRat? = some (x.toRat + y.toRat)) ∧
+    (F64.Rep (x.toRat - y.toRat) → (F64.sub x y).toRat? = some (x.toRat - y.toRat)) ∧
+    (F64.Rep (x.toRat * y.toRat) → (F64.mul x y).toRat? = some (x.toRat * y.toRat)) :=
+  ⟨F64.add_exact hx hy, F64.sub_exact hx hy, F64.mul_exact hx hy⟩
+
+/-- **Division by a positive float is monotone** in the dividend, and so is addition of a fixed float
+    (this is what proportional scaling — C14 — needs). -/
+theorem f64_div_add_mono (x x' d : F64) (hx : x.isFinite = true) (hx' : x'.isFinite = true)
+    (hd : d.isFinite = true) (h : x.toRat ≤ x'.toRat) :
+    (0 < d.toRat → F64.le (F64.div x d) (F64.div x' d) = true) ∧
+    F64.le (F64.add x d) (F64.add x' d) = true :=
+  ⟨fun hpos => F64.div_mono_left hx hx' hd hpos h, F64.add_mono_left hx hx' hd h⟩
+
+example : (F64.ofInt 7).isFinite = true ∧ 0 < (F64.ofInt 7).toRat := by decide +kernel
+
+/-- **floor / ceil / trunc / round** (`math.Floor`, `math.Ceil`, `math.Trunc`, `math.Round`) of a
+    finite float return *exactly* `⌊v⌋`, `⌈v⌉`, `v` truncated toward zero, and `v` rounded half away
+    from zero — integer-valued floats bracketing the argument. -/
+theorem f64_floor_ceil_bracket (x : F64) (hx : x.isFinite = true) :
+    (F64.floor x).toRat? = some ((x.toRat.floor : Int) : Rat) ∧
+    (F64.ceil x).toRat? = some ((x.toRat.ceil : Int) : Rat) ∧
+    (F64.trunc x).toRat? = some ((F64.truncRat x.toRat : Int) : Rat) ∧
+    ((x.toRat.floor : Int) : Rat) ≤ x.toRat ∧ x.toRat < ((x.toRat.floor + 1 : Int) : Rat) ∧
+    x.toRat ≤ ((x.toRat.ceil : Int) : Rat) ∧ ((x.toRat.ceil - 1 : Int) : Rat) < x.toRat :=
+  ⟨F64.floor_spec hx, F64.ceil_spec hx, F64.trunc_spec hx, Rat.floor_le _, Rat.lt_floor_add_one _,
+   Rat.le_ceil, Rat.lt_ceil_iff.mp (by omega)⟩
+
+/-- `math.Round`: half away from zero, exactly. -/
+theorem f64_round_half_away (x : F64) (hx : x.isFinite = true) :
+    (F64.roundHalfAway x).toRat? = some ((F64.roundAwayRat x.toRat : Int) : Rat) ∧
+    F64.roundAwayRat (5 / 2) = 3 ∧ F64.roundAwayRat (-5 / 2) = -3 ∧ F64.roundAwayRat (7 / 2) = 4 ∧
+    F64.roundNE (5 / 2) = 2 ∧ F64.roundNE (7 / 2) = 4 :=
+  ⟨F64.roundHalfAway_spec hx, by decide +kernel, by decide +kernel, by decide +kernel, by decide +kernel,
+   by decide +kernel⟩
+
+example : F64.floor (F64.ofRat (-5 / 2)) = F64.ofInt (-3) ∧ F64.ceil (F64.ofRat (-5 / 2)) = F64.ofInt (-2) ∧
+    F64.roundHalfAway (F64.ofRat (-5 / 2)) = F64.ofInt (-3) ∧ F64.trunc (F64.ofRat (-1 / 2)) = F64.zero true := by
+  decide +kernel
+
+/-! ## float-valued helpers: sumf subf multf divf, floor ceil round, lt … gte, isnum -/
+
+/-- `{sumf a₀ … aₙ}` etc. (n ≥ 1), every argument accepted by `strconv.ParseFloat`: the result is
+    the left fold of the IEEE operation over the parsed values, rendered by
+    `FormatFloat(·, 'f', -1, 64)`; constants and match groups alike.  No panic. -/
+theorem float_fold (op : F64 → F64 → F64) (c : Ctx) (as : List Arg) (x : F64) (xs : List F64)
+    (hp : as.map (fun a => Float.parseF (a.val c)) = (x :: xs).map some) (hlen : 1 ≤ xs.length) :
+    callHelper (Float.floatHelper op) as c = .ok (Float.fmtF (xs.foldl op x)) :=
+  floatHelper_fold op c as x xs hp hlen
+
+example : (callHelper (Float.floatHelper F64.add) [.const (ascii "0.1"), .group 0]
+    ⟨fun _ => ascii "0.2", fun _ => []⟩).toOption = some (ascii "0.30000000000000004") := by decide +kernel
+
+example : (callHelper (Float.floatHelper F64.mul) [.const (ascii "1e200"), .const (ascii "1E200")]
+    ⟨fun _ => [], fun _ => []⟩).toOption = some (ascii "+Inf") := by decide +kernel
+
+/-- **`sumf` on small integers is exact**: arguments that parse to integer-valued floats `n₀ … nₖ`
+    whose partial sums all have magnitude ≤ 2^53 give the float whose value is exactly `Σ nᵢ` — and,
+    when the sum is not zero, that float is `float64(Σ nᵢ)`, so the output is `FormatFloat(float64(Σ nᵢ))`.
+    (Full statement wanted: the output is the decimal string `itoa (Σ nᵢ)`; what is missing is the
+    lemma `fmtF (F64.ofInt n) = itoa n` for `|n| ≤ 2^53` about the shortest-digits search.) -/
+theorem sumf_exact_small_ints_partial (c : Ctx) (as : List Arg) (x : F64) (xs : List F64) (n : Int) (ns : List Int)
+    (hp : as.map (fun a => Float.parseF (a.val c)) = (x :: xs).map some) (hlen : 1 ≤ xs.length)
+    (hx : x.toRat? = some (n : Rat))
+    (hxs : All2 (fun x n => x.toRat? = some ((n : Int) : Rat)) xs ns)
+    (hsmall : PartialSumsSmall n ns) :
+    ∃ y : F64, callHelper (Float.floatHelper F64.add) as c = .ok (Float.fmtF y) ∧
+      y.toRat? = some ((ns.foldl (· + ·) n : Int) : Rat) ∧
+      (ns.foldl (· + ·) n ≠ 0 → y = F64.ofInt (ns.foldl (· + ·) n)) := by
+  refine ⟨xs.foldl F64.add x, floatHelper_fold F64.add c as x xs hp hlen, ?_, ?_⟩
+  · exact foldl_add_exact xs ns x n hx hxs hsmall
+  · intro hne
+    have hy := foldl_add_exact xs ns x n hx hxs hsmall
+    obtain ⟨fy, vy⟩ := F64.toRat?_eq_some.mp hy
+    -- the last partial sum is small, hence the total is a float
+    have hsm : ∀ (ns : List Int) (n : Int), n.natAbs ≤ 9007199254740992 → PartialSumsSmall n ns →
+        (ns.foldl (· + ·) n).natAbs ≤ 9007199254740992 := by
+      intro ns
+      induction ns with
+      | nil => intro n h _; exact h
+      | cons m r ih => intro n _ hs; exact ih (n + m) hs.1 hs.2
+    cases ns with
+    | nil => cases hxs; simp at hlen
+    | cons m r =>
+      have hb := hsm r (n + m) hsmall.1 hsmall.2
+      obtain ⟨fo, vo⟩ := F64.isFinite_ofInt _ hb
+      apply F64.eq_of_toRat_eq fy fo
+      · rw [vy]; exact vo.symm
+      · rw [vy]; intro h0
+        exact hne (by
+          have : ((List.foldl (· + ·) n (m :: r) : Int) : Rat) = ((0 : Int) : Rat) := by simpa using h0
+          exact Rat.intCast_inj.mp this)
+
+example : PartialSumsSmall 9007199254740000 [900, 92, -9007199254740992] := by
+  unfold PartialSumsSmall PartialSumsSmall PartialSumsSmall PartialSumsSmall; decide
+
+example : (callHelper (Float.floatHelper F64.add) [.const (ascii "9007199254740000"), .group 0, .group 1]
+    ⟨fun i => if i = 0 then ascii "900" else ascii "92", fun _ => []⟩).toOption = some (ascii "9007199254740992") := by
+  decide +kernel
+
+/-- **`{divf a 0}` as the code has it**: IEEE division, no marker — a finite non-zero dividend gives
+    `+Inf` / `-Inf` (sign = xor of the signs, so `1 ÷ -0 = -Inf`), `0/0` gives `NaN`. -/
+theorem divf_zero_marker (c : Ctx) (a b : Arg) (x z : F64)
+    (ha : Float.parseF (a.val c) = some x) (hb : Float.parseF (b.val c) = some z)
+    (hx : x.isFinite = true) (hz : z.mag = 0) :
+    callHelper (Float.floatHelper F64.div) [a, b] c =
+      .ok (if x.mag = 0 then ascii "NaN" else if (x.sign != z.sign) then ascii "-Inf" else ascii "+Inf") := by
+  rw [floatHelper_fold F64.div c [a, b] x [z] (by simp [ha, hb]) (by simp)]
+  simp only [List.foldl_cons, List.foldl_nil, Float.fmtF, F64.div_by_zero hx hz]
+  split
+  · rw [F64.format_nan]
+  · rw [F64.format_inf]
+
+example : (callHelper (Float.floatHelper F64.div) [.const (ascii "-1.5"), .const (ascii "0")]
+    ⟨fun _ => [], fun _ => []⟩).toOption = some (ascii "-Inf") ∧
+    (callHelper (Float.floatHelper F64.div) [.const (ascii "0"), .const (ascii "-0")]
+    ⟨fun _ => [], fun _ => []⟩).toOption = some (ascii "NaN") := by decide +kernel
+
+/-- **`{floor a}` / `{ceil a}`**: for an argument that parses to a finite float `v` whose floor / ceiling
+    fits an int64 the output is the decimal integer `⌊v⌋` / `⌈v⌉`, which brackets `v`
+    (`⌊v⌋ ≤ v < ⌊v⌋+1`, `⌈v⌉-1 < v ≤ ⌈v⌉`); NaN and ±Inf print `MinInt64` (amd64's `int64(x)`). -/
+theorem floor_ceil_bracket (c : Ctx) (a : Arg) (x : F64) (ha : Float.parseF (a.val c) = some x) :
+    (x.isFinite = true → minInt64 ≤ x.toRat.floor → x.toRat.floor ≤ maxInt64 →
+      callHelper (Float.unaryF Float.floorStr) [a] c = .ok (itoa x.toRat.floor) ∧
+      ((x.toRat.floor : Int) : Rat) ≤ x.toRat ∧ x.toRat < ((x.toRat.floor + 1 : Int) : Rat)) ∧
+    (x.isFinite = true → minInt64 ≤ x.toRat.ceil → x.toRat.ceil ≤ maxInt64 →
+      callHelper (Float.unaryF Float.ceilStr) [a] c = .ok (itoa x.toRat.ceil) ∧
+      ((x.toRat.ceil - 1 : Int) : Rat) < x.toRat ∧ x.toRat ≤ ((x.toRat.ceil : Int) : Rat)) ∧
+    (x.isFinite = false →
+      callHelper (Float.unaryF Float.floorStr) [a] c = .ok (itoa minInt64) ∧
+      callHelper (Float.unaryF Float.ceilStr) [a] c = .ok (itoa minInt64)) := by
+  refine ⟨?_, ?_, ?_⟩
+  · intro hf h1 h2
+    rw [unaryF_call, ha]
+    refine ⟨?_, Rat.floor_le _, Rat.lt_floor_add_one _⟩
+    simp only [Float.floorStr, F64.toInt64_of_int (F64.floor_spec hf) h1 h2]
+  · intro hf h1 h2
+    rw [unaryF_call, ha]
+    refine ⟨?_, Rat.lt_ceil_iff.mp (by omega), Rat.le_ceil⟩
+    simp only [Float.ceilStr, F64.toInt64_of_int (F64.ceil_spec hf) h1 h2]
+  · intro hf
+    rw [unaryF_call, unaryF_call, ha]
+    simp only [Float.floorStr, Float.ceilStr, F64.floor, F64.ceil,
+      F64.toInt64_not_finite (F64.integral_not_finite _ hf)]
+    first | exact ⟨rfl, rfl⟩ | trivial | simp
+
+example : (callHelper (Float.unaryF Float.floorStr) [.group 0] ⟨fun _ => ascii "-2.5", fun _ => []⟩).toOption
+      = some (ascii "-3") ∧
+    (callHelper (Float.unaryF Float.ceilStr) [.group 0] ⟨fun _ => ascii "-2.5", fun _ => []⟩).toOption
+      = some (ascii "-2") ∧
+    (callHelper (Float.unaryF Float.floorStr) [.group 0] ⟨fun _ => ascii "1e300", fun _ => []⟩).toOption
+      = some (ascii "-9223372036854775808") := by decide +kernel
+
+/-- **`{round a p}`** (constant `0 ≤ p ≤ 1024`) is `FormatFloat(v, 'f', p, 64)`: sign, then the digits of
+    the integer `N = roundNE (|v|·10^p)` with the point `p` places from the right; `N` is within one
+    half of `|v|·10^p` and exact ties go to the even digit (`roundNE`) — `{round 2.5}` is `2`,
+    `{round 3.5}` is `4`, `{round 0.125 2}` is `0.12`: round-half-even on the exact binary value, not
+    `math.Round`. -/
+theorem round_half_even (c : Ctx) (a : Arg) (pb : Bytes) (p : Nat) (x : F64)
+    (hp : atoi pb = some (p : Int)) (hmax : p ≤ 1024)
+    (ha : Float.parseF (a.val c) = some x) (hf : x.isFinite = true) :
+    callHelper Float.kfRound [a, .const pb] c =
+      .ok ((if x.sign then [45] else []) ++
+           F64.placePoint (natDigits (F64.roundNE (F64.magVal x.mag * F64.pow10 p)).toNat) p) ∧
+    F64.magVal x.mag * F64.pow10 p - 1/2 ≤ ((F64.roundNE (F64.magVal x.mag * F64.pow10 p) : Int) : Rat) ∧
+    ((F64.roundNE (F64.magVal x.mag * F64.pow10 p) : Int) : Rat) ≤ F64.magVal x.mag * F64.pow10 p + 1/2 := by
+  refine ⟨?_, F64.fixed_digits_err _ _⟩
+  rw [round_call c a pb p hp (by omega), ha]
+  have h1 := F64.not_nan_of_finite hf
+  have h2 := F64.not_inf_of_finite hf
+  have h3 : ¬ ((p : Int) < 0) := by omega
+  simp only [F64.format, h1, h2, Bool.false_eq_true, if_false, h3, Int.toNat_natCast, F64.fixedBody_eq]
+  cases x.sign <;> simp
+
+example : (callHelper Float.kfRound [.group 0] ⟨fun _ => ascii "2.5", fun _ => []⟩).toOption = some (ascii "2") ∧
+    (callHelper Float.kfRound [.group 0] ⟨fun _ => ascii "3.5", fun _ => []⟩).toOption = some (ascii "4") ∧
+    (callHelper Float.kfRound [.group 0, .const (ascii "2")] ⟨fun _ => ascii "0.125", fun _ => []⟩).toOption
+      = some (ascii "0.12") ∧
+    (callHelper Float.kfRound [.group 0, .const (ascii "1")] ⟨fun _ => ascii "-0.05", fun _ => []⟩).toOption
+      = some (ascii "-0.1") := by decide +kernel
+
+/-- **Comparisons** `{lt a b}` … `{gte a b}` on arguments that parse to finite floats compare the exact
+    values; a NaN operand makes every comparison falsy (as IEEE and the code have it). -/
+theorem float_compare_spec (c : Ctx) (a b : Arg) (x y : F64)
+    (ha : Float.parseF (a.val c) = some x) (hb : Float.parseF (b.val c) = some y) :
+    (x.isFinite = true → y.isFinite = true →
+      callHelper (Float.cmpHelper fun a b => F64.lt a b) [a, b] c = .ok (truthyStr (decide (x.toRat < y.toRat))) ∧
+      callHelper (Float.cmpHelper fun a b => F64.lt b a) [a, b] c = .ok (truthyStr (decide (y.toRat < x.toRat))) ∧
+      callHelper (Float.cmpHelper fun a b => F64.le a b) [a, b] c = .ok (truthyStr (decide (x.toRat ≤ y.toRat))) ∧
+      callHelper (Float.cmpHelper fun a b => F64.le b a) [a, b] c = .ok (truthyStr (decide (y.toRat ≤ x.toRat)))) ∧
+    ((x.isNaN = true ∨ y.isNaN = true) →
+      callHelper (Float.cmpHelper fun a b => F64.lt a b) [a, b] c = .ok FalsyVal ∧
+      callHelper (Float.cmpHelper fun a b => F64.lt b a) [a, b] c = .ok FalsyVal ∧
+      callHelper (Float.cmpHelper fun a b => F64.le a b) [a, b] c = .ok FalsyVal ∧
+      callHelper (Float.cmpHelper fun a b => F64.le b a) [a, b] c = .ok FalsyVal) := by
+  have e : ∀ test, callHelper (Float.cmpHelper test) [a, b] c = .ok (truthyStr (test x y)) := by
+    intro test; rw [cmp_call, ha, hb]
+  constructor
+  · intro hx hy
+    have l1 := F64.lt_iff_toRat_lt hx hy
+    have l2 := F64.lt_iff_toRat_lt hy hx
+    have l3 := F64.le_iff_toRat_le hx hy
+    have l4 := F64.le_iff_toRat_le hy hx
+    refine ⟨?_, ?_, ?_, ?_⟩ <;> rw [e] <;> congr 2
+    · exact Bool.eq_iff_iff.mpr (by simpa using l1)
+    · exact Bool.eq_iff_iff.mpr (by simpa using l2)
+    · exact Bool.eq_iff_iff.mpr (by simpa using l3)
+    · exact Bool.eq_iff_iff.mpr (by simpa using l4)
+  · intro hn
+    have f1 : F64.lt x y = false ∧ F64.lt y x = false ∧ F64.le x y = false ∧ F64.le y x = false := by
+      unfold F64.lt F64.le
+      rcases hn with h | h <;> simp [h]
+    refine ⟨?_, ?_, ?_, ?_⟩ <;> rw [e] <;> simp [f1, truthyStr]
+
+example : (callHelper (Float.cmpHelper fun a b => F64.lt a b) [.const (ascii "0.1"), .group 0]
+      ⟨fun _ => ascii "1e-1", fun _ => []⟩).toOption = some FalsyVal ∧
+    (callHelper (Float.cmpHelper fun a b => F64.le a b) [.const (ascii "0.1"), .group 0]
+      ⟨fun _ => ascii "0x1.999999999999ap-4", fun _ => []⟩).toOption = some TruthyVal ∧
+    (callHelper (Float.cmpHelper fun a b => F64.lt a b) [.const (ascii "9007199254740992"), .group 0]
+      ⟨fun _ => ascii "9007199254740993", fun _ => []⟩).toOption = some FalsyVal ∧
+    (callHelper (Float.cmpHelper fun a b => F64.le a b) [.const (ascii "nan"), .group 0]
+      ⟨fun _ => ascii "nan", fun _ => []⟩).toOption = some FalsyVal := by decide +kernel
+
+/-- **Non-numeric input yields the marker, never a number** — every float-valued helper: a value
+    that `strconv.ParseFloat` rejects (syntax error, or out of range) gives `<BAD-TYPE>`
+    (`isnum`: falsy), whether it is a constant or arrives from a match group; and the marker itself
+    is not a float. -/
+theorem float_nonnumeric_marker (c : Ctx) :
+    (∀ (op : F64 → F64 → F64) (as : List Arg), 2 ≤ as.length → (∃ a ∈ as, Float.parseF (a.val c) = none) →
+      callHelper (Float.floatHelper op) as c = .ok ErrorNum) ∧
+    (∀ (f : F64 → Bytes) (a : Arg), Float.parseF (a.val c) = none →
+      callHelper (Float.unaryF f) [a] c = .ok ErrorNum) ∧
+    (∀ (a : Arg), Float.parseF (a.val c) = none →
+      callHelper Float.kfRound [a] c = .ok ErrorNum ∧
+      (∀ pb p, atoi pb = some p → p ≤ 1024 → callHelper Float.kfRound [a, .const pb] c = .ok ErrorNum) ∧
+      callHelper Float.kfIsNum [a] c = .ok FalsyVal) ∧
+    (∀ (test : F64 → F64 → Bool) (a b : Arg), (Float.parseF (a.val c) = none ∨ Float.parseF (b.val c) = none) →
+      callHelper (Float.cmpHelper test) [a, b] c = .ok ErrorNum) ∧
+    Float.parseF ErrorNum = none ∧ Float.parseF ErrorValue = none ∧ Float.parseF [] = none := by
+  refine ⟨fun op as hl hb => floatHelper_marker op c as hl hb, ?_, ?_, ?_, by decide +kernel, by decide +kernel,
+    by decide +kernel⟩
+  · intro f a h; rw [unaryF_call, h]
+  · intro a h
+    refine ⟨by rw [round_call0, h], fun pb p hp hm => by rw [round_call c a pb p hp hm, h], ?_⟩
+    rw [isnum_call, h]; rfl
+  · intro test a b h
+    rw [cmp_call]
+    rcases h with h | h
+    · rw [h]
+    · rw [h]; cases Float.parseF (a.val c) <;> rfl
+
+example : Float.parseF (ascii "12x") = none ∧ Float.parseF (ascii "1e999") = none ∧ Float.parseF (ascii "1__0") = none ∧
+    Float.parseF (ascii "0x10") = none ∧ Float.parseF (ascii "+nan") = none ∧ Float.parseF (ascii " 1") = none ∧
+    (Float.parseF (ascii "0x1_0p0")).isSome = true ∧ (Float.parseF (ascii "1_0")).isSome = true ∧ (Float.parseF (ascii "-Infinity")).isSome = true ∧
+    (Float.parseF (ascii "1e-999")).isSome = true ∧ (Float.parseF (ascii ".5e1")).isSome = true := by decide +kernel
+
+/-- `{isnum a}` is truthy exactly when `strconv.ParseFloat` accepts the value. -/
+theorem isnum_spec (c : Ctx) (a : Arg) :
+    callHelper Float.kfIsNum [a] c = .ok (if (Float.parseF (a.val c)).isSome then TruthyVal else FalsyVal) :=
+  isnum_call c a
+
+/-- `{hf a}`, `{sqrt a}`: the run-time path, for constants and groups alike. -/
+theorem hf_sqrt_call (c : Ctx) (a : Arg) (x : F64) (ha : Float.parseF (a.val c) = some x) :
+    callHelper (Float.unaryF Float.hfStr) [a] c = .ok (Float.humanizeFloat x 4) ∧
+    callHelper (Float.unaryF Float.sqrtStr) [a] c = .ok (Float.fmtF (F64.sqrt x)) := by
+  rw [unaryF_call, unaryF_call, ha]; exact ⟨rfl, rfl⟩
+
+example : Float.hfStr (F64.ofInt (-1234567)) = ascii "-1,234,567.0000" ∧
+    Float.hfStr (F64.ofRat (999.99996)) = ascii "1000.0000" ∧
+    Float.sqrtStr (F64.ofInt 2) = ascii "1.4142135623730951" ∧
+    Float.unitize 1536 1024 1 [32] Strings.iecSizes = ascii "1.5 KB" ∧
+    Float.unitize (-1) 1024 0 [32] Strings.iecSizes = ascii "-1 B" ∧
+    Float.unitize 9007199254740993 1000 3 [] Strings.unitSize = ascii "9007.199T" ∧
+    Float.percentStr (F64.ofRat 0.25) (F64.zero false) F64.one 1 = ascii "25.0%" := by decide +kernel
 
 end Rare.C11
